@@ -22,8 +22,11 @@ type concCfg struct {
 	Users      bool       `json:"users,omitempty"`
 	SharedH    bool       `json:"shared_handle,omitempty"`
 	TempDomain int        `json:"temp_domain,omitempty"`
+	Focus      int        `json:"focus,omitempty"`    // 0: whole path pool; 1-3: one directory and its entries only
+	PreOpen    []string   `json:"pre_open,omitempty"` // per client: path held open on handle 0 when the concurrent phase starts ("" = none)
 	Strategy   int        `json:"strategy"`
 	PreemptPM  int        `json:"preempt_permille,omitempty"`
+	Pair       bool       `json:"pair_mode,omitempty"` // two clients, one or two calls each on one directory, handles pre-opened
 	Progs      [][]fsx.Op `json:"-"`
 }
 
@@ -115,6 +118,16 @@ func buildWorld(cfg *concCfg, nclients int) *world {
 			e.H[sharedSlot] = shared
 		}
 
+		if i < len(cfg.PreOpen) && cfg.PreOpen[i] != "" {
+			// a handle opened before the concurrent phase (directories read-only, files read-write).
+			flag := os.O_RDWR
+			if info, err := v.Stat(cfg.PreOpen[i]); err == nil && info.IsDir() {
+				flag = os.O_RDONLY
+			}
+
+			_ = e.Exec(fsx.Op{K: "OpenFile", P: cfg.PreOpen[i], Flag: flag, H: 0})
+		}
+
 		w.envs = append(w.envs, e)
 	}
 
@@ -162,7 +175,20 @@ var concPaths = []string{ //nolint:gochecknoglobals // path pool: small on purpo
 	"/a/x", "/b/x", "/a/f", "/b/g", "/a/d", "/a/y", "/a/d/h", "/a/d/x", "/a", "/b", "/b/k", "/a/l", "/a/lb/x", "/a/x/z", "/", "/a/x/..", "",
 }
 
+var focusPaths = [][]string{ //nolint:gochecknoglobals // one directory and its entries.
+	nil,
+	{"/a/x", "/a/f", "/a/y", "/a/d", "/a"},
+	{"/a/d/h", "/a/d/x", "/a/d", "/a/d/y"},
+	{"/b/g", "/b/x", "/b/k", "/b"},
+}
+
 func pickPath(t *sim.Tape, cfg *concCfg, adversarial bool) string {
+	if cfg.Focus > 0 && !t.Chance(100) {
+		fp := focusPaths[cfg.Focus]
+
+		return fp[t.Int(len(fp))]
+	}
+
 	n := 8
 	if adversarial {
 		n = len(concPaths)
@@ -211,12 +237,29 @@ func genConcOp(t *sim.Tape, cfg *concCfg, adversarial bool, uniq string) fsx.Op 
 		weights[17], weights[18] = 0, 0
 	}
 
+	if cfg.Pair {
+		// every template equally likely: the pairs are what is being covered.
+		for i := range weights {
+			if weights[i] > 0 {
+				weights[i] = 1
+			}
+		}
+	}
+
 	if cfg.TempDomain == 0 {
 		weights[14], weights[15] = 0, 0
 	}
 
 	k := kinds[t.Weighted(weights)]
 	o := fsx.Op{K: k}
+
+	hnd := func() int {
+		if cfg.Pair {
+			return 0 // the pre-opened handle
+		}
+
+		return t.Int(2)
+	}
 
 	switch k {
 	case "Mkdir", "MkdirAll":
@@ -234,25 +277,25 @@ func genConcOp(t *sim.Tape, cfg *concCfg, adversarial bool, uniq string) fsx.Op 
 		o.P = pickPath(t, cfg, adversarial)
 		o.Flag = genFlags(t)
 		o.Perm = 0o644
-		o.H = t.Int(2)
+		o.H = hnd()
 	case "FWrite":
-		o.H = t.Int(2)
+		o.H = hnd()
 		o.Data = uniq
 	case "FRead":
-		o.H = t.Int(2)
+		o.H = hnd()
 		o.N = 8
 	case "FClose", "FReadDir":
-		o.H = t.Int(2)
+		o.H = hnd()
 		o.N = -1
 	case "FTruncate":
-		o.H = t.Int(2)
+		o.H = hnd()
 		o.Size = int64(t.Int(4))
 	case "FWriteAt":
-		o.H = t.Int(2)
+		o.H = hnd()
 		o.Data = uniq
 		o.Size = int64(t.Int(12))
 	case "FReadAt":
-		o.H = t.Int(2)
+		o.H = hnd()
 		o.N = 6
 		o.Size = int64(t.Int(8))
 	case "Truncate":
@@ -268,7 +311,7 @@ func genConcOp(t *sim.Tape, cfg *concCfg, adversarial bool, uniq string) fsx.Op 
 	case "CreateTemp":
 		o.P = []string{"/a", "/tmp", "/a/d"}[t.Int(3)]
 		o.Q = "t*"
-		o.H = t.Int(2)
+		o.H = hnd()
 	case "MkdirTemp":
 		o.P = []string{"/a", "/tmp", "/a/d"}[t.Int(3)]
 		o.Q = "t*"
@@ -282,6 +325,15 @@ func genConcOp(t *sim.Tape, cfg *concCfg, adversarial bool, uniq string) fsx.Op 
 }
 
 // genConc draws a whole concurrent program.
+// deeper returns the factor by which the thorough tier lengthens a history or widens a program in half of its runs.
+func deeper(c *sim.Ctx, t *sim.Tape) int {
+	if c != nil && c.Tier == "thorough" && t.Chance(500) {
+		return 2
+	}
+
+	return 1
+}
+
 func genConc(t *sim.Tape, fsKinds []string, maxClients, maxOps int, adversarial bool) *concCfg {
 	cfg := &concCfg{FS: fsKinds[t.Int(len(fsKinds))]}
 	cfg.HardLink = t.Chance(400)
@@ -298,10 +350,34 @@ func genConc(t *sim.Tape, fsKinds []string, maxClients, maxOps int, adversarial 
 		n++
 	}
 
+	if t.Chance(300) {
+		cfg.Pair = true
+		n = 2
+	}
+
+	if cfg.Pair || t.Chance(350) {
+		cfg.Focus = 1 + t.Int(3)
+	}
+
+	if cfg.Pair || t.Chance(400) {
+		cfg.PreOpen = make([]string, n)
+		pool := []string{"/a", "/a/d", "/b", "/a/f", "/b/g", "/a/d/h"}
+
+		if cfg.Focus > 0 {
+			pool = [][]string{nil, {"/a", "/a/f", "/a/d"}, {"/a/d", "/a/d/h"}, {"/b", "/b/g"}}[cfg.Focus]
+		}
+
+		for ci := range cfg.PreOpen {
+			if cfg.Pair || t.Chance(600) {
+				cfg.PreOpen[ci] = pool[t.Int(len(pool))]
+			}
+		}
+	}
+
 	cfg.Progs = make([][]fsx.Op, n)
 
 	for ci := 0; ci < n; ci++ {
-		for j := 0; j < maxOps && (j == 0 || t.Chance(600)); j++ {
+		for j := 0; j < maxOps && (j == 0 || (!cfg.Pair && t.Chance(600)) || (cfg.Pair && j == 1 && t.Chance(250))); j++ {
 			cfg.Progs[ci] = append(cfg.Progs[ci], genConcOp(t, cfg, adversarial, fmt.Sprintf("<%d.%d>", ci, j)))
 		}
 	}
